@@ -34,6 +34,7 @@ def plan(tier, seed):
 		tasks.append(('t_many', dict(attr=attr, n=1200 if tier == 'quick' else 5000)))
 	tasks.append(('t_two_sets', dict()))
 	tasks.append(('t_negative', dict()))
+	tasks.append(('t_no_taxon', dict()))
 	tasks.append(('t_dirs', dict()))
 	return tasks
 
@@ -61,7 +62,7 @@ def id_of(g, attr):
 TAXA = [dict(name='T', parent=None, thr=0.9)]
 
 
-def verify_db(sh, db, gspecs, attr, case, ks):
+def verify_db(sh, db, gspecs, attr, case, ks, with_query=True):
 	"""Alignment oracle on a loaded database."""
 	from gambit.query import query, QueryParams
 	from gambit.metric import jaccarddist
@@ -82,6 +83,8 @@ def verify_db(sh, db, gspecs, attr, case, ks):
 		if np.asarray(db.signatures[si]).tolist() != sigarrs[gi].tolist():
 			sh.violation('sig-index-signature-mismatch', case, sigarrs[gi].tolist(), np.asarray(db.signatures[si]).tolist())
 			return False
+	if not with_query:
+		return True
 	# distances: query = genome j's signature
 	for chunksize in (1, 1000):
 		res = query(db, sigarrs, QueryParams(report_closest=n + 2, chunksize=chunksize))
@@ -287,6 +290,43 @@ def t_two_sets():
 	return sh
 
 
+def t_no_taxon():
+	"""Genome sets in which some genomes are not assigned to any taxon (the column is nullable): they are genomes of the set like the others and
+	must be paired with their signatures; the database loads, complete and aligned (classification of such genomes is not this property)."""
+	from gambit.db import ReferenceDatabase
+	sh = Shard()
+	ks = fixtures.kspec(5, 'AT')
+	with fixtures.workdir('c04z') as d:
+		for attr in ATTRS:
+			for n in (1, 2, 3):
+				for mask in range(1, 2 ** n):
+					gspecs = genome_specs(n)
+					for i in range(n):
+						if mask >> i & 1:
+							gspecs[i]['taxon'] = None
+					for perm in ([list(range(n))] if n < 3 else [[0, 1, 2], [2, 0, 1]]):
+						dbdir = os.path.join(d, f'db-{attr}-{n}-{mask}-{perm[0]}')
+						os.makedirs(dbdir)
+						fixtures.write_genome_db(os.path.join(dbdir, 'g.gdb'), TAXA, gspecs)
+						ids = [id_of(gspecs[i], attr) for i in perm] + ([90] if attr == 'ncbi_id' else ['unrelated'])
+						fixtures.write_sigfile(os.path.join(dbdir, 's.gs'), ks, [SIGS[i] for i in perm] + [EXTRA[0]], ids=np.array(ids) if attr == 'ncbi_id' else ids, id_attr=attr)
+						case = dict(attr=attr, n=n, genomes_without_taxon=[i for i in range(n) if mask >> i & 1], file_order=perm, no_taxon=True)
+						sh.evals += 1
+						try:
+							db = ReferenceDatabase.load_from_dir(dbdir)
+						except Exception as e:
+							sh.violation('complete-database-refused', case, 'loads', repr(e)[:300])
+							continue
+						try:
+							if verify_db(sh, db, gspecs, attr, case, ks, with_query=False):
+								sh.nontrivial += 1
+								sh.count('databases_with_taxon_less_genomes')
+						finally:
+							db.signatures.close(); db.session.close()
+	sh.sample(dict(family='no-taxon', attrs=ATTRS))
+	return sh
+
+
 def t_negative():
 	from gambit.db import ReferenceDatabase
 	sh = Shard()
@@ -463,6 +503,8 @@ def finalize(agg, tier):
 
 
 def replay(case, kind=None):
+	if case.get('no_taxon'):
+		return [v for v in t_no_taxon().violations if v['case'] == case][:1]
 	from gambit.db import ReferenceDatabase
 	sh = Shard()
 	ks = fixtures.kspec(5, 'AT')
